@@ -433,8 +433,8 @@ theorem sideband_reassembly (writes : List (UInt8 × Bytes)) (ch : UInt8) :
     simp only [sbPairs, List.flatMap_cons, List.filter_append, List.map_append, List.flatten_append] at ih ⊢
     rw [ih, sbPairs_channel]
     by_cases h : w.1 = ch
-    · simp [h, List.filter_cons, sbChunks_flatten _ _ (Nat.le_refl _)]
-    · simp [h, List.filter_cons]
+    · simp [h, sbChunks_flatten _ _ (Nat.le_refl _)]
+    · simp [h]
 
 example : writeSideband 2 [104, 105] = [[48, 48, 48, 55, 2, 104, 105]] := by decide
 
